@@ -277,24 +277,180 @@ def trace(run):
     run.parts['trace'] = len(evs)
 
 
+# ---------------------------------------------------------------- direction B, long decimals (10..15 significant digits)
+def canon_big(kind, p):
+    """raw result -> {'neg', 'd', 's'} canonical digit form (XlRoundingBig!Canon) or None"""
+    if kind != 'val' or isinstance(p, bool):
+        return None
+    if absval.is_empty_cell(p):
+        return {'neg': False, 'd': [], 's': 0}
+    if isinstance(p, int):
+        d = Decimal(p)
+    elif isinstance(p, float) and p == p and p not in (float('inf'), float('-inf')):
+        d = Decimal(repr(p))
+    else:
+        return None
+    sign, digits, exp = d.as_tuple()
+    digits = list(digits)
+    sc = -exp
+    if sc < 0:
+        digits += [0] * (-sc)
+        sc = 0
+    while digits and digits[0] == 0:
+        digits.pop(0)
+    if not digits:
+        return {'neg': False, 'd': [], 's': 0}
+    while sc > 0 and digits[-1] == 0:
+        digits.pop()
+        sc -= 1
+    if len(digits) > 40:
+        return None
+    return {'neg': bool(sign), 'd': digits, 's': sc}
+
+
+def big_value(neg, d, s):
+    m = int(''.join(map(str, d)) or '0') * (-1 if neg else 1)
+    return m if s == 0 else float(Decimal(m).scaleb(-s))
+
+
+def big_lit(neg, d, s):
+    return lit(int(''.join(map(str, d)) or '0') * (-1 if neg else 1), s)
+
+
+def _big_event(ev, neg, d, s):
+    x = big_value(neg, d, s)
+    res = ev([(0, 0, 0, x)], idxs=range(31))
+    out = []
+    k = 0
+    for _, f in FUNS:
+        for n in NS:
+            c = canon_big(*res[k])
+            out.append({'f': f, 'neg': neg, 'd': d, 's': s, 'n': n, 'oneg': c['neg'] if c else False, 'od': c['d'] if c else [],
+                        'os': c['s'] if c else -1, 'raw': show(*res[k])})
+            k += 1
+    c = canon_big(*res[30])
+    out.append({'f': 'PCT', 'neg': neg, 'd': d, 's': s, 'n': 0, 'oneg': c['neg'] if c else False, 'od': c['d'] if c else [],
+                'os': c['s'] if c else -1, 'raw': show(*res[30])})
+    return out
+
+
+def _trace_big_job(seeds):
+    try:
+        p = probe()
+        ev = p.session().eval if seeds and (seeds[0] // 50) % 2 else p.eval
+        out = []
+        for sd in seeds:
+            rng = random.Random(sd)
+            nd = rng.randint(10, 15)                    # significant digits
+            s = rng.randint(0, 6)
+            d = [rng.randint(1, 9)] + [rng.randint(0, 9) for _ in range(nd - 1)]
+            x = rng.random()
+            if s > 0 and x < 0.3:                       # a tie at some position behind the point, zeros after it
+                k = rng.randint(1, s)
+                d = d[:nd - k] + [5] + [0] * (k - 1)
+                if rng.random() < 0.5 and nd - k >= 1:
+                    d[nd - k - 1] = rng.choice([0, 2, 4, 6, 8])     # an even digit before the tie (half-to-even would go down)
+            elif x < 0.45:                              # nines: the carry runs through the whole number
+                j = rng.randint(0, nd - 1)
+                d = d[:j] + [9] * (nd - j)
+            elif s > 0 and x < 0.6:                     # one unit above / below a grid point at some position
+                k = rng.randint(1, s)
+                d = d[:nd - k] + [0] * (k - 1) + [1] if rng.random() < 0.5 else d[:nd - k] + [9] * k
+            if d[-1] == 0 and s > 0:
+                d[-1] = rng.randint(1, 9)               # keep the number of significant digits (the value's scale is exactly s)
+            out += _big_event(ev, rng.random() < 0.5, d, s)
+        return out
+    except Exception as e:
+        return {'harness_error': f'{type(e).__name__}: {e}'}
+
+
+def validate_big(run, events, tag='Trace_C16B'):
+    from harness.tlc import parse_tuple
+    verdicts = {}
+    base = 0
+    for pi, part in enumerate(core.chunks(events, 20000)):
+        path = os.path.join(run.scratch, f'{tag}_{pi}.json')
+        json.dump({'events': [{k: e[k] for k in ('f', 'neg', 'd', 's', 'n', 'oneg', 'od', 'os')} for e in part]}, open(path, 'w'))
+        r = run.tlc('Trace_C16B', ['SPECIFICATION Spec'], workers=1, timeout=1800, env={'TRACE_FILE': path}, tag=f'{tag}_{pi}')
+        done = False
+        for t in r.tuples:
+            v = parse_tuple(t)
+            if v[0] == 'V':
+                verdicts[base + v[1]] = v[2]
+            elif v[0] == 'DONE' and v[1] == len(part) + 1:
+                done = True
+        if not done:
+            raise core.MachineryError(f'{tag}: not all events consumed')
+        base += len(part)
+    return verdicts
+
+
+def ideal_big(f, neg, d, s, n):
+    """the exact result as text, for the message only (the verdict is TLC's)"""
+    import decimal
+    x = Decimal(big_lit(neg, d, s))
+    if f == 'PCT':
+        return str(x / 100)
+    q = Decimal(1).scaleb(-n)
+    mode = {'ROUND': decimal.ROUND_HALF_UP, 'ROUNDUP': decimal.ROUND_UP, 'ROUNDDOWN': decimal.ROUND_DOWN}[f]
+    with decimal.localcontext() as c:
+        c.prec = 60
+        return str(x.quantize(q, rounding=mode))
+
+
+def trace_big(run):
+    n = 200 if run.quick else 5000
+    seeds = [run.seed * 1000033 + 7 + i for i in range(n)]
+    outs = core.pmap(_trace_big_job, core.chunks(seeds, 50), chunksize=1)
+    evs = []
+    for o in outs:
+        if isinstance(o, dict):
+            raise core.MachineryError(o['harness_error'])
+        evs += o
+    verdicts = validate_big(run, evs)
+    nbad = 0
+    for i, e in enumerate(evs):
+        v = verdicts.get(i + 1)
+        run.evaluations += 1
+        run.traces_validated += 1
+        if v is None:
+            if i % 31 == 0:
+                run.mark_nontrivial(('tb', tuple(e['d']), e['s']))
+            continue
+        nbad += 1
+        if nbad <= 40:
+            x = big_lit(e['neg'], e['d'], e['s'])
+            case = {'in': {'f': e['f'], 'big': True, 'neg': e['neg'], 'd': e['d'], 's': e['s'], 'n': e['n'], 'x': x, 'mode': 'ovr'},
+                    'ideal': ideal_big(e['f'], e['neg'], e['d'], e['s'], e['n']), 'obs': e['raw'], 'kind': 'trace_big'}
+            run.judge(case, False, clause=f"Trace_C16B: {e['f']}({x},{e['n']}) = {e['raw']}, exact decimal result {case['ideal']}", part='trace_big')
+    run.parts['trace_big'] = len(evs)
+
+
 def check(run):
     run.rule = ('decimals sign x integer part x 4 fractional digits enumerated by TLC with exact results of ROUND/ROUNDUP/ROUNDDOWN for digit counts '
                 '-3..6 and of x%; each supplied as override (all), workbook cell, literal, digit count from a cell (samples) and through the public '
-                'file path; compared in exact decimal mode; random decimals judged by Trace_C16. Non-trivial = a non-zero fractional part. One '
+                'file path; compared in exact decimal mode; random decimals judged by Trace_C16, random decimals of 10..15 significant digits (ties, runs of nines, neighbours of grid points) by the digit-level Trace_C16B. Non-trivial = a non-zero fractional part. One '
                 'evaluation = one (function, decimal, digit count).')
     run.assumptions += ['which double a decimal denotes is decided by repr() round trip (exact for <= 15 significant digits)',
-                        'the grid has at most 4 fractional digits and |x| < 1235 (TLC integers are 32-bit); random decimals up to 9 significant digits']
+                        'the grid has at most 4 fractional digits and |x| < 1235 (TLC integers are 32-bit); random decimals up to 9 significant digits there, 10..15 significant digits as digit sequences in XlRoundingBig / Trace_C16B']
     m = 3000 if run.quick else 25000
     run.tlc('MC_XlRounding', ['INIT Init', 'NEXT Next', f'CONSTANT M = {m}', 'INVARIANT Idempotent', 'INVARIANT Monotone', 'INVARIANT HalfQuantum',
                               'INVARIANT Bracket', 'INVARIANT OddSymmetric', 'INVARIANT RepresentableUnchanged', 'INVARIANT TiesAwayFromZero',
                               'INVARIANT NearestOtherwise'], workers=8, timeout=1800)
     gen(run)
     trace(run)
+    trace_big(run)
 
 
 def replay(run, case):
     i = case['in']
     p = probe()
+    if i.get('big'):
+        k = 30 if i['f'] == 'PCT' else [f for _, f in FUNS].index(i['f']) * 10 + NS.index(i['n'])
+        ev = _big_event(p.eval, i['neg'], i['d'], i['s'])[k]
+        v = validate_big(run, [ev]).get(1)
+        run.judge(dict(case, obs=ev['raw']), v is None, clause=f"{i['f']}({i['x']},{i['n']}) = {ev['raw']}, exact decimal result {case.get('ideal')}")
+        return
     x = pyval(i['m'], i['s'])
     if i['f'] == 'PCT':
         res = p.eval([(0, 0, 0, x)], idxs=[30])[0]
